@@ -180,7 +180,7 @@ def _nt(ops, meta):
     return False
 
 
-def shards(tier):
+def _own_shards(tier):
     sh = []
     for v in VARIANTS:
         for r in (8, 12, 20):
@@ -259,3 +259,19 @@ def shard_involution(_, tier):
     ck.run(cases, nontrivial=_nt)
     ck.stats.states += len(cases)
     return ck.stats
+
+
+def shards(tier):
+    # a position is (block counter, offset): how the counter itself advances across its word boundaries (hook presets for the 64-bit
+    # variants, seek for the 32-bit ones) and the portable engine's counter handling are C03's shards, run here as components
+    sh = _own_shards(tier)
+    for v in ("chacha", "xchacha", "chachao", "salsa", "xsalsa"):
+        sh.append(("shard_c03_component", ("shard_counterbits", (v, 20))))
+    sh.append(("shard_c03_component", ("shard_portable", 20)))
+    sh.append(("shard_c03_component", ("shard_seekhist", 20)))
+    return sh
+
+
+def shard_c03_component(arg, tier):
+    from mc import multi
+    return multi.run_component("c03", arg[0], arg[1], tier, PROPERTY_ID)
